@@ -9,6 +9,8 @@ used by the C06 / C07 proofs); they are restated here.  All statements hold for 
 order `o`.
 -/
 import Uniflow.Props.C07
+import Uniflow.Proofs.TableKahn
+import Uniflow.Proofs.TableDepsLog
 
 open Uniflow.Table
 
@@ -133,7 +135,7 @@ theorem linked_head (o : Ord) (st : State) (sb : Sym) (l : List Sym) (h : linked
 
 end Uniflow.Table
 
-/-- FULL statement (not proved): in every state reached by a well-formed history, for an
+/-- FULL statement (proved below as `C08.deps_first`): in every state reached by a well-formed history, for an
 acyclic reference graph (a rank that strictly decreases along references), `linked(sb)` lists a
 symbol after every listed symbol it references – so by `C08.lifecycle_order_*` each symbol is
 activated after, and deactivated before, the symbols it references. -/
@@ -149,10 +151,7 @@ In every state reached by a well-formed history, `linked(sb)` is `sb` followed b
 other present symbols that reference `sb` transitively, each once: the symbol every listed
 symbol depends on is activated first and (the unload pass walks the list in reverse,
 `C08.lifecycle_order_unload`) deactivated last, and no symbol outside the set of transitive
-referrers is touched.  Missing for `C08.deps_first_full`: the order *among* the referrers
-(Kahn's counting invariant `degree[y] = number of entries of not yet listed visited symbols naming y`,
-and "acyclic ⇒ the left-over loop adds nothing"); it is checked by the C08 oracle on the real log
-of every operation. -/
+referrers is touched.  (The order *among* the referrers, for acyclic graphs, is `C08.deps_first`.) -/
 theorem C08.deps_first_partial (o : Ord) (ho : o.Valid) (h : List Op) (hw : WfRun o {} h) (sb : Sym)
     (l : List Sym) (hsb : Live (run o {} h) sb) (hl : linked o (run o {} h) sb = some l) :
     ∃ tl, l = sb :: tl ∧ (l.map (·.id)).Nodup ∧
@@ -170,3 +169,139 @@ theorem C08.deps_first_partial (o : Ord) (ho : o.Valid) (h : List Op) (hw : WfRu
   rw [ht] at hn
   simp only [List.map_cons, List.nodup_cons] at hn
   exact hn.1 (List.mem_map.mpr ⟨x, hxt, rfl⟩)
+
+/-- **Dependencies first.** In every state reached by a well-formed history and for an acyclic
+reference graph, `linked(sb)` lists a symbol after every listed symbol it references (Kahn's
+counting invariant, `Proofs/TableKahn.lean`); with `C08.lifecycle_order_load` / `_unload` each
+symbol is activated after, and deactivated before, the symbols it references. -/
+theorem C08.deps_first : C08.deps_first_full := by
+  intro o ho h hw sb l hsb hl ⟨rank, hrank⟩ i j x y hi hj he
+  have hR := rinv_run o ho h {} rinv_init hw
+  have hp := linked_pairwise o ho _ hR sb hsb rank hrank l hl
+  obtain ⟨hi', ei⟩ := List.getElem?_eq_some_iff.mp hi
+  obtain ⟨hj', ej⟩ := List.getElem?_eq_some_iff.mp hj
+  rcases Nat.lt_trichotomy i j with hlt | heq | hgt
+  · exact hlt
+  · exfalso
+    subst heq
+    rw [ei] at ej; subst ej
+    have hx : Live (run o {} h) x := ((C07.linked_exact o ho h hw sb hsb l hl x).mp (ei ▸ List.getElem_mem hi')).1
+    have := hrank x x hx hx he
+    omega
+  · exfalso
+    have := (List.pairwise_iff_getElem.mp hp) j i hj' hi' hgt
+    rw [ei, ej] at this
+    exact this he
+
+/-- **Dependencies first, on the log.** For every well-formed history `h` and every next operation
+`op` (Insert, Free or Close) that returns nil, the events `seg` the operation appends to the log
+satisfy:
+* if the reference graph *after* the operation is acyclic, a `load a` that comes before a
+  `load b` is never a load of a symbol that references `b` – whenever `s` references `t` and both
+  are loaded, `load t` precedes `load s`;
+* if the reference graph *before* the operation is acyclic, an `unload a` that comes before an
+  `unload b` is never followed by the unload of a symbol that references it – whenever `s`
+  references `t` and both are unloaded, `unload s` precedes `unload t` (for `Close` across all
+  the symbols it frees).
+`RefsTo st a b` = the present symbol stored under `a` references the present symbol stored under `b`. -/
+theorem C08.deps_first_log (o : Ord) (ho : o.Valid) (h : List Op) (hw : WfRun o {} h) (op : Op)
+    (hwop : WfOp (run o {} h) op) (hok : (step o (run o {} h) op).2.1 = .ok) :
+    ∃ seg, (step o (run o {} h) op).1.log = (run o {} h).log ++ seg ∧
+      (∀ rank, Ranked (step o (run o {} h) op).1 rank → LoadOrd (step o (run o {} h) op).1 seg) ∧
+      (∀ rank, Ranked (run o {} h) rank → UnloadOrd (run o {} h) seg) :=
+  step_seg o ho _ op (rinv_run o ho h {} rinv_init hw) hwop hok
+
+/-- Index form of `C08.deps_first_log`: positions in the operation's own events. -/
+theorem C08.deps_first_log_index (o : Ord) (ho : o.Valid) (h : List Op) (hw : WfRun o {} h) (op : Op)
+    (hwop : WfOp (run o {} h) op) (hok : (step o (run o {} h) op).2.1 = .ok) :
+    ∃ seg, (step o (run o {} h) op).1.log = (run o {} h).log ++ seg ∧
+      (∀ rank, Ranked (step o (run o {} h) op).1 rank → ∀ (i j s t : Nat),
+        seg[i]? = some (Event.load t) → seg[j]? = some (Event.load s) →
+        RefsTo (step o (run o {} h) op).1 s t → i < j) ∧
+      (∀ rank, Ranked (run o {} h) rank → ∀ (i j s t : Nat),
+        seg[i]? = some (Event.unload s) → seg[j]? = some (Event.unload t) →
+        RefsTo (run o {} h) s t → i < j) := by
+  obtain ⟨seg, h1, h2, h3⟩ := C08.deps_first_log o ho h hw op hwop hok
+  have self_free : ∀ (st : State) (rank : Nat → Nat), KeyId st → Ranked st rank → ∀ a, ¬ RefsTo st a a := by
+    intro st rank hk hr a ⟨S, T, hs, ht, he⟩
+    rw [hs] at ht; cases ht
+    have hl : Live st S := by unfold Live; rw [hk _ _ hs]; exact hs
+    have := hr S S hl hl he
+    omega
+  refine ⟨seg, h1, ?_, ?_⟩
+  · intro rank hrank i j s t hi hj href
+    have hp := h2 rank hrank
+    obtain ⟨hi', ei⟩ := List.getElem?_eq_some_iff.mp hi
+    obtain ⟨hj', ej⟩ := List.getElem?_eq_some_iff.mp hj
+    rcases Nat.lt_trichotomy i j with hlt | heq | hgt
+    · exact hlt
+    · exfalso
+      subst heq
+      rw [ei] at ej; cases ej
+      exact self_free _ rank (keyId_step o _ op (C07.reachable_keyId o h)) hrank _ href
+    · exfalso
+      have := (List.pairwise_iff_getElem.mp hp) j i hj' hi' hgt s t ej ei
+      exact this href
+  · intro rank hrank i j s t hi hj href
+    have hp := h3 rank hrank
+    obtain ⟨hi', ei⟩ := List.getElem?_eq_some_iff.mp hi
+    obtain ⟨hj', ej⟩ := List.getElem?_eq_some_iff.mp hj
+    rcases Nat.lt_trichotomy i j with hlt | heq | hgt
+    · exact hlt
+    · exfalso
+      subst heq
+      rw [ei] at ej; cases ej
+      exact self_free _ rank (C07.reachable_keyId o h) hrank _ href
+    · exfalso
+      have := (List.pairwise_iff_getElem.mp hp) j i hj' hi' hgt t s ej ei
+      exact this href
+
+/-! ### non-vacuity: a chain 3 → 2 → 1 whose target is inserted last -/
+
+namespace Uniflow.Table
+
+/-- Decidable check of `Ranked`. -/
+def rankedB (st : State) (rank : Nat → Nat) : Bool :=
+  st.symbols.all (fun p => p.2.ports.all (fun np => np.2.all (fun r =>
+    match aget (resolve st p.2.ns r) st.symbols with
+    | none => true
+    | some T => !(T.ns == p.2.ns) || decide (rank T.id < rank p.2.id))))
+
+theorem rankedB_sound (st : State) (rank : Nat → Nat) (h : rankedB st rank = true) : Ranked st rank := by
+  intro x y _ hy ⟨np, hnp, r, hr, ha, hns⟩
+  unfold rankedB at h
+  rw [List.all_eq_true] at h
+  have h1 := h (y.id, y) (mem_of_aget hy)
+  simp only [List.all_eq_true] at h1
+  have h2 := h1 np hnp r hr
+  rw [ha] at h2
+  simpa [hns] using h2
+
+namespace C08Ex
+def c1 : Sym := Sym.mk 1 0 0 true [5] [6, 9] none []
+def c2 : Sym := Sym.mk 2 0 0 true [5] [6, 9] none [(6, [Ref.mk 1 0 5])]
+def c3 : Sym := Sym.mk 3 0 0 true [5] [6, 9] none [(6, [Ref.mk 2 0 5]), (1, [Ref.mk 1 0 5])]
+def chainHist : List Op := [.insert c3, .insert c2]
+end C08Ex
+
+end Uniflow.Table
+
+open Uniflow.Table.C08Ex in
+/-- Non-vacuity of `C08.deps_first` / `C08.deps_first_log`: a well-formed history, a well-formed
+next operation that returns nil, ranked states before and after (rank = id), and the operation's
+events: the target 1 is loaded first, then 2, then 3 (which also sends its init flow to 1);
+freeing 1 afterwards unloads 3, then 2, then 1. -/
+theorem C08.deps_first_nonvacuous :
+    wfRunB Ord.id {} (chainHist ++ [.insert c1]) = true ∧
+    (step Ord.id (run Ord.id {} chainHist) (.insert c1)).2.1 = .ok ∧
+    rankedB (run Ord.id {} chainHist) (fun k => k) = true ∧
+    rankedB (step Ord.id (run Ord.id {} chainHist) (.insert c1)).1 (fun k => k) = true ∧
+    (step Ord.id (run Ord.id {} chainHist) (.insert c1)).1.log =
+      [.exec .init 1 [], .load 1, .exec .begin 1 [],
+       .exec .init 2 [], .load 2, .exec .begin 2 [],
+       .exec .init 3 [(1, 5)], .load 3, .exec .begin 3 []] ∧
+    ((step Ord.id (run Ord.id {} (chainHist ++ [.insert c1])) (.free 1)).1.log.drop 9) =
+      [.exec .term 3 [], .unload 3, .exec .final 3 [],
+       .exec .term 2 [], .unload 2, .exec .final 2 [],
+       .exec .term 1 [], .unload 1, .exec .final 1 [], .close 1] := by
+  decide +kernel
